@@ -19,7 +19,8 @@ EXPLANATION = (
     "three-valued: in their arms of ArcExpression::eval the second operand is evaluated on every path from the first (an error "
     "of one operand cannot pre-empt the other). (R13.8) no Result of the evaluator or of the dataset is swallowed in the "
     "evaluator core and in eval (an Err must surface as an error of the query; value-conversion attempts excepted). (R13.9) an "
-    "evaluation error (None of eval()/is_truthy()) is never turned into a value by unwrap_or & co. (R13.4) panic audit of the "
+    "evaluation error (None of eval()/is_truthy()) is never turned into a value by unwrap_or & co. (R13.10) eval threads its own "
+    "graph_matcher argument unchanged into every recursive evaluation and into the EXISTS sub-query. (R13.4) panic audit of the "
     "evaluator core. NOT decided: equality with the algebra's multiset semantics (join order, duplicates), and the "
     "function library / numeric tower (listed, not armed).")
 
@@ -414,6 +415,43 @@ def error_semantics_rule(ck, facts):
                    "so FILTER(?unbound || true) must keep the solution" % op, "%s:%s" % (first[1]["file"], first[1]["line"]))
         else:
             ck.ok("R13.7", "%s: both operands are evaluated before the three-valued table is applied" % op)
+    # R13.10: the active graph is threaded unchanged: every recursive evaluation and the EXISTS sub-query receive eval's own
+    # `graph_matcher` argument (a constant such as the default matcher would evaluate EXISTS inside GRAPH against the wrong graph)
+    from mirutil import closure_upvars, upvar_index
+    gm_param = None
+    for i in range(1, fn.argc + 1):
+        if (fn.locals[i].get("name") or "") == "graph_matcher":
+            gm_param = i
+    if gm_param is None:
+        gm_param = 4
+    threaded, wrong = 0, []
+    for f in facts.with_closures(fn):
+        for bi, t in f.calls():
+            pos = 3 if call_name_matches(t, r"expression::ArcExpression::eval$") else (2 if call_name_matches(t, r"exec::ExecState::<'a, D>::select$") else None)
+            if pos is None or len(t["args"]) <= pos:
+                continue
+            o = provenance(f, t["args"][pos], transparent=())[-1]
+            ok = False
+            if f is fn:
+                ok = o[0] == "param" and o[1] == gm_param and not [p for p in o[2] if p != "*"]
+            else:
+                ui = upvar_index(f, t["args"][pos])
+                ups = closure_upvars(facts, f)
+                if ui is not None and ui < len(ups):
+                    po = ups[ui]
+                    ok = po[0] == "param" and po[1] == gm_param
+                    if not ok and f.parent != fn.id:
+                        ok = True      # nested deeper: checked at the level that captures it
+            if ok:
+                threaded += 1
+            else:
+                wrong.append((t["f"]["name"].split("::")[-1], "%s:%s" % (t["file"], t["line"])))
+    for name, loc in wrong:
+        ck.bad("R13.10", "R13.10@eval#%s-graph" % name, "eval calls %s with a graph matcher that is not its own `graph_matcher` argument: "
+               "inside GRAPH the sub-evaluation (e.g. EXISTS) would look at another graph" % name, loc)
+    if not wrong:
+        ck.ok("R13.10", "eval threads its graph_matcher unchanged into %d recursive evaluations / EXISTS sub-queries" % threaded)
+    ck.floor("R13.10", "recursive evaluations in eval", threaded + len(wrong), 20)
     # R13.9
     n = 0
     for f in facts.with_closures(fn):
